@@ -332,10 +332,15 @@ def case_ancient(col, p):
     g = b.resolve()
     st_A = (T2 - tm) * 2 * N0
     sampled = ['A', 'B'] if sample_other else ['A']
+    if sample_other == 'same':
+        # the same deme sampled today (listed first) and in the past
+        sampled = ['A', 'A']
     # sample_other == 'ancient': B is sampled in the past as well (later than A): every sample is ancient, at two different times
     tmB = tm + 0.5 * (T2 - tm) if sample_other == 'ancient' else T2
     times = [st_A, (T2 - tmB) * 2 * N0] if sample_other else [st_A]
     ns = [3, 2] if sample_other else [3]
+    if sample_other == 'same':
+        times, ns = [0, st_A], [2, 3]
     info = dict(p, kind='ancient')
     try:
         got = sfs(g, sampled, ns, pts, sample_times=times)
@@ -358,9 +363,13 @@ def case_ancient(col, p):
         phi = PM.phi_2D_to_3D_split_1(xx, phi)
         nuA2 = (lambda t: size_at(tm + t)) if fn != 'constant' else a
         phi = I.three_pops(phi, xx, tmB - tm, nu1=nuA2, nu2=0.8, nu3=1.0 / N0, m12=m, m21=m, frozen3=True)
-        phi = PM.remove_pop(phi, xx, 1)                   # A itself is not sampled at present
-        # axes now (B, A'); sampled order is (A_sampled, B)
-        fs = dadi.Spectrum.from_phi(np.ascontiguousarray(phi.transpose(1, 0)), [3, 2], [xx, xx], mask_corners=False)
+        if sample_other == 'same':
+            phi = PM.remove_pop(phi, xx, 2)               # B is not sampled; axes now (A today, A')
+            fs = dadi.Spectrum.from_phi(phi, [2, 3], [xx, xx], mask_corners=False)
+        else:
+            phi = PM.remove_pop(phi, xx, 1)                   # A itself is not sampled at present
+            # axes now (B, A'); sampled order is (A_sampled, B)
+            fs = dadi.Spectrum.from_phi(np.ascontiguousarray(phi.transpose(1, 0)), [3, 2], [xx, xx], mask_corners=False)
     else:
         # only the ancient sample is requested: the graph is sliced at the sample time, nothing happens afterwards
         phi = PM.remove_pop(phi, xx, 2)
@@ -611,7 +620,7 @@ def run(ctx):
         cases.append({'kind': 'program', 'pts': 8, 'programs': f45[lo:lo + 3]})
     for fn in ('constant', 'exponential', 'linear'):
         for frac in (0.25, 0.5):
-            for other in (False, True, 'ancient'):
+            for other in (False, True, 'ancient', 'same'):
                 for mig in (False, True):
                     for pre in (False, True):
                         cases.append({'kind': 'ancient', 'function': fn, 'frac': frac, 'sample_other': other, 'mig': mig, 'pre_epoch': pre})
